@@ -210,6 +210,13 @@ pub fn enumerate(a: &Ast, fam: Fam) -> Vec<Mal> {
             }
         }
     }
+    // 12b. boundary between two adjacent strings moved into the middle of a code point
+    {
+        let mut b = a.clone();
+        if crate::gen::split_codepoint(&mut b) {
+            out.push(Mal { name: "split-codepoint", site: String::new(), frame: refcodec::ref_encode(&b, fam, &st).bytes, expect: Expect::All("InvalidString".into()) });
+        }
+    }
     // 13. wildcard / NUL in a topic name
     for (k, is_resp) in [(SK::TopicName, false), (SK::ResponseTopic, true)] {
         for s in spans_of(k) {
